@@ -67,7 +67,12 @@ def make_script(rng, wrap):
             ops += [("ctrl", par, W.cmd("CMD POWEROFF")), ("ctrl", c, W.cmd("CMD POWERON"))]
             for a in (1, 2, 2):
                 ops.append(("data", c, W.tx_datagram(vers[c], (fn + a) % H, rng.below(8), 0, W.rand_burst(rng, 148))))
-            ops += [("ctrl", par, W.cmd("CMD POWEROFF")), ("ctrl", par, W.cmd("CMD POWERON")), ("tick", fn), ("tick", (fn + 1) % H), ("tick", (fn + 2) % H)]
+            if rng.chance(1, 2):
+                ops += [("ctrl", par, W.cmd("CMD POWEROFF")), ("ctrl", par, W.cmd("CMD POWERON"))]
+            else:
+                # ... or the idle parent is powered ON while its child already runs and holds bursts: nothing is lost, they go out in their frames
+                ops += [("ctrl", par, W.cmd("CMD POWERON"))]
+            ops += [("tick", fn), ("tick", (fn + 1) % H), ("tick", (fn + 2) % H)]
             fn = (fn + 3) % H
     ops.append(("state",))
     return defs, ops
